@@ -117,6 +117,9 @@ def run(ctx):
                  ctx.construct(sw, extra='workflow first'),
                  'the workflow itself is not stopped before its '
                  'sub-workflows', ctx.loc(sw, c))
+    from mstatic.rules import shared
+    shared.subworkflow_recursion_unrestricted(ctx, r2, WH + '.stop_workflow',
+                                              'stop_workflow')
     # no early exit between wf.stop and the recursion for CANCELLED
     on, _oc = own[0]
     test_nodes = [x for x in cfg.nodes if x.kind == 'test' and
